@@ -23,7 +23,7 @@ import (
 )
 
 func init() {
-	register(&Prop{ID: "C21", Module: "V.C21.Check", Gen: c21Gen, Quick: 3200, Thorough: 40000, Shard: 230})
+	register(&Prop{ID: "C21", Module: "V.C21.Check", Gen: c21Gen, Quick: 3200, Thorough: 20000, Shard: 230})
 }
 
 var c21Kinds = map[string]string{
@@ -171,7 +171,7 @@ func c21Run(in c21In, r *Rng, class string) (cs Case) {
 		input["stub_label_dims"] = []int{in.sw, in.sh}
 	}
 	cs.Input = input
-	dummy := "Case KRect true false 0 0 0 0 0 None None false false 0 0 0 0 100 0 100 0 100 0 100 0 100 0 100 0"
+	dummy := "Case KRect true false 0 0 0 0 0 None None false false 0 0 0 0 0 0 0 0 100 0 100 0 100 0 100 0 100 0 100 0"
 	cs.Coq = dummy
 	defer func() {
 		if e := recover(); e != nil {
@@ -265,6 +265,18 @@ func c21Run(in c21In, r *Rng, class string) (cs Case) {
 	ib := obj.ToShape().GetInnerBox()
 	theta := float64(float32(math.Atan2(float64(content.Height), float64(content.Width))))
 	oc, os := math.Cos(theta), math.Sin(theta)
+	cr, sr := 0., 0.
+	if dsl == d2target.ShapeOval && obj.Width > 0 && obj.Height > 0 {
+		// cos*r, sin*r of shape_oval.go GetInsidePlacement for the final ellipse
+		rx, ry := obj.Width/2, obj.Height/2
+		th2 := float64(float32(math.Atan2(ry, rx)))
+		sin2, cos2 := math.Sin(th2), math.Cos(th2)
+		rr := rx * ry / math.Sqrt(math.Pow(rx*sin2, 2)+math.Pow(ry*cos2, 2))
+		cr, sr = cos2*rr, sin2*rr
+		if !c27Finite(cr, sr) {
+			cr, sr = 0, 0
+		}
+	}
 	if !c27Finite(obj.Width, obj.Height, ib.Width, ib.Height) {
 		cs.ImplFail = []string{"non-finite size"}
 		return cs
@@ -299,7 +311,7 @@ func c21Run(in c21In, r *Rng, class string) (cs Case) {
 			return cs
 		}
 	}
-	cs.Coq = fmt.Sprintf("Case %s %s %s %s %s %s %s %s %s %s %s %s %s %s %s %s %s %s "+c27F(lw2)+" "+c27F(lh2),
+	cs.Coq = fmt.Sprintf("Case %s %s %s %s %s %s %s %s %s %s %s %s %s %s "+c27F(cr)+" "+c27F(sr)+" %s %s %s %s "+c27F(lw2)+" "+c27F(lh2),
 		kind, coqBool(obj.Label.Value == ""), coqBool(obj.Language != ""),
 		c27Z(int64(ld.Width)), c27Z(int64(ld.Height)), c27Z(int64(obj.Text().FontSize)),
 		c27Z(int64(content.Width)), c27Z(int64(content.Height)), dw, dh,
@@ -388,8 +400,12 @@ func c21Gen(r *Rng, tier string, n int) []Case {
 		sw, sh int
 	}{{d2target.ShapeC4Person, 75, 355}, {d2target.ShapeC4Person, 300, 40}, {d2target.ShapeC4Person, 75, 55},
 		{d2target.ShapeCloud, 295, 240}, {d2target.ShapeCloud, 295, 195}, {d2target.ShapeCloud, 100, 40},
-		{d2target.ShapeCircle, 57, 21}, {d2target.ShapeOval, 10, 300}, {d2target.ShapeOval, 300, 10}, {d2target.ShapeDocument, 100, 555}} {
+		{d2target.ShapeCircle, 57, 21}, {d2target.ShapeOval, 10, 300}, {d2target.ShapeOval, 99999, 99999}, {d2target.ShapeOval, 300, 10}, {d2target.ShapeDocument, 100, 555}} {
 		out = append(out, c21Run(c21In{shape: c.s, label: "witness", stub: true, sw: c.sw, sh: c.sh}, r, "corpus-witness"))
+	}
+	// only the width given: LimitAR overrides it on person / oval (C21_explicit_width_alone_honoured excludes them)
+	for _, s := range []string{d2target.ShapeOval, d2target.ShapePerson, d2target.ShapeRectangle} {
+		out = append(out, c21Run(c21In{shape: s, label: "witness", stub: true, sw: 20, sh: 300, w: ip(50)}, r, "corpus-witness"))
 	}
 	// zero / negative attributes (accepted by the compiler)
 	for _, s := range []string{d2target.ShapeRectangle, d2target.ShapeCircle, d2target.ShapeOval, d2target.ShapeCode, d2target.ShapeImage} {
